@@ -78,12 +78,18 @@ type IsoSpec struct {
 	TimeoutMs int    `json:"timeout_ms"`
 }
 
+type ShareSpec struct {
+	Sender   string `json:"sender"`
+	Receiver string `json:"receiver"`
+}
+
 type Job struct {
-	ID   int       `json:"id"`
-	Kind string    `json:"kind"` // hist iso
-	KF   []string  `json:"kf,omitempty"`
-	Hist *HistSpec `json:"hist,omitempty"`
-	Iso  *IsoSpec  `json:"iso,omitempty"`
+	ID    int        `json:"id"`
+	Share *ShareSpec `json:"share,omitempty"`
+	Kind  string     `json:"kind"` // hist iso share
+	KF    []string   `json:"kf,omitempty"`
+	Hist  *HistSpec  `json:"hist,omitempty"`
+	Iso   *IsoSpec   `json:"iso,omitempty"`
 }
 
 type IsoObs struct {
@@ -130,6 +136,8 @@ func childMain(path string) {
 			r = runHist(j.Hist)
 		case "iso":
 			r = runIso(j.Iso)
+		case "share":
+			r = runShare(j.Share)
 		default:
 			r = Result{Status: "error", Msg: "unknown job kind"}
 		}
@@ -627,4 +635,41 @@ func runIso(spec *IsoSpec) Result {
 		r.Msg = strings.Join(errs, "; ")
 	}
 	return r
+}
+
+// ---------- known finding C13-1: a table is passed by reference ----------
+
+// runShare runs two states that both use a table after it went through a channel. Nothing is
+// compared here: the observation is whether the race detector reports (parent side).
+func runShare(spec *ShareSpec) Result {
+	runtime.GOMAXPROCS(4)
+	ch := make(chan lua.LValue, 1)
+	var wg sync.WaitGroup
+	var mu sync.Mutex
+	var errs []string
+	run := func(src string) {
+		defer wg.Done()
+		L := lua.NewState()
+		defer L.Close()
+		L.SetGlobal("ch", lua.LChannel(ch))
+		if err := L.DoString(src); err != nil {
+			mu.Lock()
+			errs = append(errs, trunc(err.Error(), 200))
+			mu.Unlock()
+		}
+	}
+	wg.Add(2)
+	go run(spec.Sender)
+	go run(spec.Receiver)
+	done := make(chan struct{})
+	go func() { wg.Wait(); close(done) }()
+	select {
+	case <-done:
+	case <-time.After(10 * time.Second):
+		return Result{Status: "hang", Msg: "share job still running after the time limit"}
+	}
+	if len(errs) > 0 {
+		return Result{Status: "error", Msg: strings.Join(errs, "; ")}
+	}
+	return Result{Status: "ok"}
 }
